@@ -120,7 +120,7 @@ def bounded_build(run, args):
         copts = [("default", {}), ("asserts", {"enable_serialization_asserts": True}), ("little", {"target_endianness": "little"}), ("omit-float", {"omit_float_serialization_support": True})]
         cppopts = [("c++14", {"std": "c++14"}), ("c++17", {"std": "c++17"}), ("c++20", {"std": "c++20"}), ("c++17-pmr", {"std": "c++17-pmr"})]
         if args.tier != "thorough":
-            copts, cppopts = copts[:3], cppopts[:2]
+            copts, cppopts = copts[:3], cppopts[:3]
         for cname, root, lookup in corpora:
             has_float = cname != "kw2"
             for oname, opts in copts:
@@ -164,6 +164,7 @@ def bounded_build(run, args):
             except Exception as ex:
                 failures.setdefault(f"py:{cname}#generation-completes", []).append(f"{type(ex).__name__}: {str(ex)[:300]}")
                 files = []
+            roots = {p.name for p in out.iterdir() if p.is_dir()} if out.exists() else set()
             for f in files:
                 if f.suffix == ".py":
                     n_py += 1
@@ -171,6 +172,22 @@ def bounded_build(run, args):
                         py_compile.compile(str(f), cfile=str(work / "x.pyc"), doraise=True)
                     except py_compile.PyCompileError as ex:
                         failures.setdefault(f"py:{cname}:{f.relative_to(out).as_posix()}#compiles", []).append(str(ex)[:300])
+                        continue
+                    # every import of a module below a generated root package names a module that was generated
+                    # (the modules cannot be imported here -- NumPy is absent -- so the import graph is resolved on the AST)
+                    for node in ast.walk(ast.parse(f.read_text())):
+                        mods = []
+                        if isinstance(node, ast.ImportFrom) and node.module and node.level == 0:
+                            mods = [node.module]
+                        elif isinstance(node, ast.Import):
+                            mods = [a.name for a in node.names]
+                        for m_ in mods:
+                            parts = m_.split(".")
+                            if parts[0] in roots and parts[0] != "nunavut_support":
+                                target = out.joinpath(*parts)
+                                if not (target.with_suffix(".py").exists() or (target / "__init__.py").exists()):
+                                    failures.setdefault(f"py:{cname}:{f.relative_to(out).as_posix()}#imports-resolve", []).append(
+                                        f"{cname}/{f.relative_to(out).as_posix()}:{node.lineno}: imports {m_}, a module that is not generated")
         with concurrent.futures.ThreadPoolExecutor(max_workers=14) as ex:
             results = list(ex.map(lambda j: (j[-1],) + compile_one(j[:-1])[1:], jobs))
         for label, rc, err in results:
